@@ -851,6 +851,7 @@ func cmdNondet(args []string) error {
 		}
 	}
 	sort.Strings(scanned)
+	sort.Strings(sites) // canonical order: independent of the order of declarations in the source
 	var b strings.Builder
 	fmt.Fprintf(&b, "-- GENERATED by /verif/tools/goext nondet from %s. Do not edit.\n", strings.Join(fs.Args(), ", "))
 	fmt.Fprintf(&b, "namespace %s\n\n", *ns)
@@ -860,7 +861,7 @@ func cmdNondet(args []string) error {
 		fmt.Fprintf(&b, "  %s%s\n", leanStr(s), comma(i, len(scanned)))
 	}
 	b.WriteString("]\n\n")
-	b.WriteString("/-- every `range` over a map (or over an expression whose type the extractor cannot resolve), `.Range(f)` call,\n`time.Now/Since/Until`, use of package `rand`, `go` statement and `select` statement of the scanned files:\n`file:func:kind:text[#n]`, in source order -/\n")
+	b.WriteString("/-- every `range` over a map (or over an expression whose type the extractor cannot resolve), `.Range(f)` call,\n`time.Now/Since/Until`, use of package `rand`, `go` statement and `select` statement of the scanned files:\n`file:func:kind:text[#n]`, in ascending (byte) order -/\n")
 	b.WriteString("def sites : List String := [\n")
 	for i, s := range sites {
 		fmt.Fprintf(&b, "  %s%s\n", leanStr(s), comma(i, len(sites)))
